@@ -25,6 +25,7 @@ def run(ctx):
     sources = keyword_fields(ctx, g)
     ctx.guard(taint, ctx, g, sources)
     ctx.guard(self_rule, ctx)
+    ctx.guard(mixed_rule, ctx, g)
     ctx.assume('identifiers that merely coincide with keywords (kw_as_identifier_*) are names, not keywords')
     return ('Keyword-carrying Node fields are computed from the grammar (production position whose symbol derives a '
             'keyword terminal -> constructor field); every read of such a field in the interpreter and prebuilder '
@@ -185,6 +186,70 @@ def self_rule(ctx):
                         msg='%s declares an implicit handle (%s) although %s' % (q, decl, 'the variable exists' if found else 'the name is not self'))
     if n < 3:
         raise AnalysisError('only %d find_symbol overrides with a self branch found' % n)
+
+
+def mixed_rule(ctx, g):
+    '''mixed positions: one grammar action serves a keyword terminal AND a free-text alternative of the same head and forwards the lexeme
+    (instance_name : variable_name | SELF).  The lexeme of the keyword alternative becomes a NAME in the tree (RelateNode.from_variable_name,
+    DeleteNode.variable_name ...): it must be forwarded case-normalised, otherwise `SELF` and `self` give different trees and, in the
+    prebuilders, a new implicit variable per reference.'''
+    from .. import absint
+    r = ctx.rule('C08-MIXED', 'a grammar action shared by a keyword and a free-text alternative forwards the keyword case-normalised', floor=1,
+                 oracle='property statement (bodies that differ only in keyword case parse to the same tree)')
+    free = set(FREE_TEXT)
+    changed = True
+    while changed:          # non-terminals that can derive a single free-text token
+        changed = False
+        for p in g.productions:
+            if len(p.syms) == 1 and p.syms[0] in free and p.head not in free:
+                free.add(p.head)
+                changed = True
+    byfn = {}
+    for p in g.productions:
+        if len(p.syms) == 1:
+            byfn.setdefault((p.head, p.fn.name), []).append(p)
+    n = 0
+    for (head, fname), ps in sorted(byfn.items()):
+        kws = [p for p in ps if p.syms[0] in g.keywords]
+        others = [p for p in ps if p.syms[0] in free and p.syms[0] not in g.keywords]
+        if not kws or not others or head.startswith('kw_as_identifier'):
+            continue
+        fn = ps[0].fn
+        P = param_names(fn)[0]
+        q = CLS + '.' + fname
+
+        def tok_type(e, s, tr):
+            k = e['_K']
+            if isinstance(k, ast.Constant) and isinstance(k.value, str):
+                return s['sym'] == k.value
+            if isinstance(k, (ast.Tuple, ast.List, ast.Set)) and all(isinstance(x, ast.Constant) for x in k.elts):
+                return s['sym'] in [x.value for x in k.elts]
+            return None
+
+        def store(e, s, tr):
+            tr.append(('value', holder['it'].subst(e['_V'], s)))
+            return True
+        holder = {}
+        atoms = [('%s.slice[1].type == _K' % P, tok_type), ('%s.slice[1].type != _K' % P, lambda e, s, tr: None if tok_type(e, s, tr) is None else not tok_type(e, s, tr)),
+                 ('%s.slice[1].type in _K' % P, tok_type), ('%s.slice[1].type not in _K' % P, lambda e, s, tr: None if tok_type(e, s, tr) is None else not tok_type(e, s, tr))]
+        it = absint.Interp(fn, atoms, [('%s[0] = _V' % P, store)])
+        holder['it'] = it
+        for p in kws:
+            n += 1
+            st_ = {'sym': p.syms[0]}
+            out, tr = it.run(st_)
+            vals = [t[1] for t in tr if isinstance(t, tuple) and t[0] == 'value']
+            v = vals[-1] if vals else None
+            hops = 0
+            while isinstance(v, ast.IfExp) and hops < 5:
+                hops += 1
+                v = v.body if it.cond(v.test, {'sym': p.syms[0]}, []) else v.orelse
+            ok = v is not None and ((isinstance(v, ast.Constant) and isinstance(v.value, str)) or is_case_normalised(v))
+            r.check(ok, '%s forwards the keyword %s case-normalised' % (fname, p.syms[0]), fn, construct=q, key='mixed ' + p.syms[0],
+                    msg='%s forwards the lexeme of the keyword %s as written (`%s`) into a name field of the tree: `%s` and `%s` then parse to different '
+                        'trees and denote different variables downstream' % (fname, p.syms[0], src(v) if v is not None else '?', p.syms[0], p.syms[0].lower()))
+    if n < 1:
+        raise AnalysisError('no grammar action shared by a keyword and a free-text alternative found (instance_name : variable_name | SELF expected)')
 
 
 def ctor_fields(p):
